@@ -70,6 +70,10 @@ func genE2E(seed int64, idx int, profile string, scale int) scen.E2E {
 		cfg.CliPipelining = rng.Intn(3) != 0
 		p.Conns = 1 + rng.Intn(6)
 		p.NOps = (20 + rng.Intn(180)) * scale
+		if idx%4 == 3 {
+			p.Teardown = true
+			p.NOps = 4 + rng.Intn(20)
+		}
 	case "errors":
 	case "streams":
 		p.Streams = 1 + rng.Intn(6)
